@@ -1,9 +1,10 @@
 /-
   Proofs/QRet.lean — the `q` observation (C04 deadlock, C03/C07/C08/C10 "never returns", C06 maximal
-  progress) and the `ret` step (C04 nothing in flight at return, C07 errors / first error, C09
+  progress, C10 work conservation below the limit) and the `ret` step (C04 nothing in flight at return, C07 errors / first error, C09
   outcome, C08 started-all-reported / noop, C03 clean-all).
 -/
 import FnGraphVerif.Proofs.QStep
+import FnGraphVerif.Proofs.UIdle
 namespace FG
 
 variable {x : MonCtx} {m : PredSt} {s s1 : PState} {as : List Action}
@@ -42,6 +43,29 @@ theorem q_coup (hx : GoodCtx x) (h : Coup x m s as) (hq : Quiescent x.c s) (hres
       · left
         rw [h.inv]
         exact (maximal_progress hx.good hr hq hseq hlim ⟨hpre.1, hpre.2.1⟩ hf hv hall).2
+      · right
+        simp only [not_forall] at hall
+        obtain ⟨p, hp, hpe⟩ := hall
+        exact ⟨p, hp, by rw [h.eok]; exact hpe⟩
+    · -- C10: a limit is work-conserving (`idle_below_limit_all_started`)
+      intro hi hf hseq l hlim hlt
+      have hpre := run_preI (h.intrNone hi) (preI_init x.c) h.hrun
+      rw [h.fl] at hf
+      -- at a quiescent point the observed in-flight functions are the model's
+      have hlen : s.inflight.length ≤ m.realInflight.length := by
+        apply List.Nodup.length_le_of_subset hinv.inflNodup
+        intro f hf'
+        exact (h.mem_realInflight hx).mpr ⟨hf', quiescent_invoke_quiet hq hres f hf'⟩
+      unfold allBlockedB
+      rw [List.all_eq_true]
+      intro v hv
+      rw [List.mem_range] at hv
+      simp only [Bool.or_eq_true, decide_eq_true_eq, List.any_eq_true]
+      by_cases hall : ∀ p ∈ parents x.c.D v, p ∈ s.endedOk
+      · left
+        rw [h.inv]
+        exact (idle_below_limit_all_started hx.good hr hq hseq hlim (by omega) ⟨hpre.1, hpre.2.1⟩ hf
+          hv hall).2
       · right
         simp only [not_forall] at hall
         obtain ⟨p, hp, hpe⟩ := hall
